@@ -303,6 +303,32 @@ func (x *Node) Propose(minTime uint64) (*block.Block, error) {
 	return x.Comm.Out[len(x.Comm.Out)-1], nil
 }
 
+// Schedule prepares a packing flow on the node's current best, as packerLoop does, without packing yet.
+func (x *Node) Schedule(minTime uint64) (*packer.Flow, error) {
+	best := x.Repo.BestBlockSummary()
+	if minTime == 0 {
+		minTime = best.Header.Timestamp() + thor.BlockInterval()
+	}
+	flow, err := x.Packer.Schedule(best, minTime)
+	if err != nil {
+		return nil, fmt.Errorf("%w: %v", ErrNotScheduled, err)
+	}
+	return flow, nil
+}
+
+// Pack packs on a previously scheduled flow through the real doPack (the best block may have moved meanwhile:
+// packerLoop checks for a new best only once per second).
+func (x *Node) Pack(flow *packer.Flow) (*block.Block, error) {
+	before := len(x.Comm.Out)
+	if err := x.Node.VerifDoPack(flow); err != nil {
+		return nil, err
+	}
+	if len(x.Comm.Out) != before+1 {
+		return nil, errors.New("doPack did not broadcast a block")
+	}
+	return x.Comm.Out[len(x.Comm.Out)-1], nil
+}
+
 // Deliver imports a received block through the real processBlock. Returns the error class (node.VerifErrClass).
 func (x *Node) Deliver(blk *block.Block) (string, error) {
 	_, class, err := x.Node.VerifProcessBlock(blk)
